@@ -92,8 +92,9 @@ fn run_case(c: &Case, st: &mut Stats) -> Result<(), Violation> {
         if !o.res.is_err() {
             return Err(Violation::new("ssl-without-tls-not-refused", format!("run_on returned {}", o.res.short())));
         }
-        if pkts.len() != 1 {
-            return Err(Violation::new("ssl-without-tls-reply", format!("{} packets sent after the greeting to a refused TLS request", pkts.len() - 1)));
+        let only_err = pkts.len() == 2 && out[pkts[1].start..].first() == Some(&0xff);
+        if pkts.len() != 1 && !only_err {
+            return Err(Violation::new("ssl-without-tls-reply", format!("{} packets sent after the greeting to a refused TLS request, not a single ERR", pkts.len() - 1)));
         }
         return Ok(());
     }
